@@ -138,7 +138,7 @@ def tmpl_multi(rng):
     model = {"paths": p_in + p_out + c_in[:2] + ["c.out", "sub/gen/readme.md", "gen/a.o"],
              "targets": {"p": {"inp": p_in, "out": p_out, "hasInput": True},
                          "c": {"inp": c_in, "out": ["c.out"], "hasInput": True}},
-             "focus": ["C13"]}
+             "focus": ["C13", "C18"]}
     return {"files": {"zinoma.yml": T_ROOT, "sub/zinoma.yml": T_SUB}, "model": model,
             "members": ["data/x.txt", "sub/data/x.txt", "sub/gen/a.o", "sub/gen/deep/b.o", "sub/gen/lib.o"],
             "real": {"sub/gen/lib.o": "sub/real/lib.o.1"},
